@@ -102,6 +102,7 @@ package hintdetail
 //@ func GetAllHints
 //@   props C19 C07 C11
 //@   requires err != nil
+//@   defines allHintsOf(err)
 //@   ensures seqEq(result, hintsAcc(err, nil))
 
 // detailsAcc: details innermost to outermost, empty ones skipped, no de-duplication
@@ -117,6 +118,7 @@ package hintdetail
 //@ func GetAllDetails
 //@   props C19 C07 C11
 //@   requires err != nil
+//@   defines allDetailsOf(err)
 //@   ensures seqEq(result, detailsAcc(err, nil))
 
 // ---- C09: what the hint / detail layers hand to the format engine ----
@@ -133,3 +135,21 @@ package hintdetail
 //@   ensures result == self.cause
 //@   ensures pDetail(p) ==> len($pargs) == len(old($pargs)) + 1 && $pargs[len(old($pargs))] == ifaceOf(self.detail)
 //@   ensures !pDetail(p) ==> $pargs == old($pargs)
+
+// ---- FlattenHints / FlattenDetails: the lists joined by a line containing only "--" (C19) ----
+//@ spec func joinDD(s []string, n int) string
+//@ unfold joinDD(s, n) = n <= 0 ? "" : (n == 1 ? s[0] : joinDD(s, n - 1) + "\n--\n" + s[n - 1])
+//@ spec func allHintsOf(e error) []string
+//@ spec func allDetailsOf(e error) []string
+
+//@ func FlattenHints
+//@   props C19
+//@   requires err != nil
+//@   ensures result == joinDD(allHintsOf(err), len(allHintsOf(err)))
+//@   loop 1: invariant $range == allHintsOf(err) && bbContent(b) == joinDD($range, $n) && sep == ($n == 0 ? "" : "\n--\n")
+
+//@ func FlattenDetails
+//@   props C19
+//@   requires err != nil
+//@   ensures result == joinDD(allDetailsOf(err), len(allDetailsOf(err)))
+//@   loop 1: invariant $range == allDetailsOf(err) && bbContent(b) == joinDD($range, $n) && sep == ($n == 0 ? "" : "\n--\n")
